@@ -7,8 +7,12 @@ the unique live one.
 -/
 namespace PydraModel.JobProto
 
-/-- actions that write to the job directory, and the load of the cached result -/
+/-- actions that write to the job directory (the task body runs in it and writes its outputs there), and the
+    load of the cached result -/
 def Act.touchesDir : Act → Bool
+  | .body => true
+  | .chdirJob => true        -- `os.chdir(cache_dir)`: needs the directory
+  | .auditStart => true      -- `Audit.start_audit` does `os.chdir(odir)`
   | .clearDir => true
   | .mkDir => true
   | .ensureDir => true
@@ -19,14 +23,19 @@ def Act.touchesDir : Act → Bool
   | .loadResult => true
   | _ => false
 
-/-- no access to the job directory outside `with <job lock>:` -/
+/-- what may only happen inside `with <job lock>:`: every access to the job directory, and every use of the
+    save lock (`save` is only called with the job lock held) -/
+def Act.needsJobLock (a : Act) : Bool :=
+  a.touchesDir || a == .lockAcquire .save || a == .lockRelease .save
+
+/-- no access to the job directory (and no use of the save lock) outside `with <job lock>:` -/
 def Prog.outsideOK : Prog → Bool
   | .skip => true
-  | .act a => !a.touchesDir
+  | .act a => !a.needsJobLock
   | .seq p q => p.outsideOK && q.outsideOK
   | .tryExceptFinally _ b e f => b.outsideOK && e.outsideOK && f.outsideOK
   | .withLock .job _ => true
-  | .withLock .save b => b.outsideOK
+  | .withLock .save _ => false
   | .ifNotRerun b => b.outsideOK
   | .ifAuditProv b => b.outsideOK
 
@@ -59,7 +68,8 @@ def Frame.outsideOK : Frame → Bool
   | .tryK _ e f _ _ => e.outsideOK && f.outsideOK
   | .handlerK f _ => f.outsideOK
   | .finK _ => true
-  | .lockK _ _ => true
+  | .lockK .job _ => true
+  | .lockK .save _ => false
 
 /-- frames that are not inside a job-lock frame hold disciplined residual programs -/
 def stackDisc : List Frame → Bool
@@ -76,7 +86,7 @@ def Cfg.disc (cfg : Cfg) : Bool := (jobFrames cfg.stack != 0 || cfg.focus.outsid
 def NextDisc (cfg : Cfg) : Next → Prop
   | .tau c' => c'.disc = true
   | .done _ => True
-  | .action _ a k => (∀ c, (k c).disc = true) ∧ (a.touchesDir = true → cfg.holdsJob = true)
+  | .action _ a k => (∀ c, (k c).disc = true) ∧ (a.needsJobLock = true → cfg.holdsJob = true)
 
 theorem next_disc (rr pv : Bool) (cfg : Cfg) (hd : cfg.disc = true) : NextDisc cfg (cfg.next rr pv) := by
   obtain ⟨focus, stack⟩ := cfg
@@ -110,17 +120,23 @@ theorem next_disc (rr pv : Bool) (cfg : Cfg) (hd : cfg.disc = true) : NextDisc c
         exact ⟨.inr h.1.1, .inr ⟨h.1.2, h.2⟩, hs⟩
     | withLock l b =>
       simp only [Cfg.next, NextDisc]
-      refine ⟨fun c => ?_, fun ha => by simp [Act.touchesDir] at ha⟩
-      by_cases hc : c = .normal
-      · simp only [hc, if_true, Cfg.disc, stackDisc, Focus.outsideOK, Frame.outsideOK, Bool.and_eq_true,
-          Bool.or_eq_true, bne_iff_ne, ne_eq, Bool.or_true, true_and]
-        cases l with
-        | job => exact ⟨.inl (by simp [jobFrames]), hs⟩
-        | save =>
-          rcases hf with h | h
-          · exact ⟨.inl (by simpa [jobFrames] using h), hs⟩
-          · exact ⟨.inr (by simpa [Prog.outsideOK] using h), hs⟩
-      · simp [hc, Cfg.disc, Focus.outsideOK, hs]
+      have hin : l = .save → ¬ jobFrames stack = 0 := by
+        intro hl
+        subst hl
+        rcases hf with h | h
+        · exact h
+        · simp [Prog.outsideOK] at h
+      refine ⟨fun c => ?_, fun ha => ?_⟩
+      · by_cases hc : c = .normal
+        · simp only [hc, if_true, Cfg.disc, stackDisc, Focus.outsideOK, Bool.and_eq_true,
+            Bool.or_eq_true, bne_iff_ne, ne_eq]
+          cases l with
+          | job => exact ⟨.inl (by simp [jobFrames]), .inr rfl, hs⟩
+          | save => exact ⟨.inl (by simpa [jobFrames] using hin rfl), .inl (hin rfl), hs⟩
+        · simp [hc, Cfg.disc, Focus.outsideOK, hs]
+      · cases l with
+        | job => simp [Act.needsJobLock, Act.touchesDir] at ha
+        | save => simpa [Cfg.holdsJob] using hin rfl
     | ifNotRerun b =>
       simp only [Cfg.next, NextDisc]
       cases rr
@@ -169,7 +185,12 @@ theorem next_disc (rr pv : Bool) (cfg : Cfg) (hd : cfg.disc = true) : NextDisc c
       | finK pending => simp [Cfg.next, NextDisc, Cfg.disc, Focus.outsideOK, hst]
       | lockK l irel =>
         simp only [Cfg.next, NextDisc]
-        exact ⟨fun c' => by simp [Cfg.disc, Focus.outsideOK, hst], fun ha => by simp [Act.touchesDir] at ha⟩
+        refine ⟨fun c' => by simp [Cfg.disc, Focus.outsideOK, hst], fun ha => ?_⟩
+        cases l with
+        | job => simp [Cfg.holdsJob, jobFrames]
+        | save =>
+          have : ¬ jobFrames st = 0 := by simpa [Frame.outsideOK] using hfr
+          simpa [Cfg.holdsJob, jobFrames] using this
 
 /-- every configuration is disciplined -/
 def DiscInv (g : Global) : Prop := ∀ pid, (g.procs pid).cfg.disc = true
@@ -233,7 +254,7 @@ def nextAct (g : Global) (pid : Pid) : Option Act :=
 
 /-- In a disciplined reachable state: a process about to access the job directory is inside `with <job lock>:` -/
 theorem access_inside_lock (g : Global) (hD : DiscInv g) (pid : Pid) (a : Act) (h : nextAct g pid = some a)
-    (ha : a.touchesDir = true) : (g.procs pid).cfg.holdsJob = true := by
+    (ha : a.needsJobLock = true) : (g.procs pid).cfg.holdsJob = true := by
   have hn := next_disc (g.procs pid).env.rerun (g.procs pid).env.prov (g.procs pid).cfg (hD pid)
   unfold nextAct at h
   cases hnext : (g.procs pid).cfg.next (g.procs pid).env.rerun (g.procs pid).env.prov with
